@@ -92,6 +92,19 @@ CLAIMED["C09"] = dict(
    text="Deductive proof (all inputs) that the counting functions pass exactly the documented options to group_notes and return the number of groups with at least the documented minimum (steps 1, jumps 2, hands 3 over tap / hold head / roll head / lift joined per beat; holds and rolls: {head, TAIL}, joined, the caller's orphan policies), that count_grouped_notes counts the groups of at least `minimum` notes and count_mines the notes of type MINE. group_notes itself (type filter, head/tail joining with its buffering, same-beat modes, which orphan an exception names) is a bounded stand-in: exhaustive comparison with a declarative reading of the statement over every stream of the 2-column grid and every option combination, run in 12 parallel slices - labelled bounded, hence level 'other'.",
    note="Trusted: group_notes as a function of its six arguments at the counters' call sites, sum(cond(x) for x in xs) as the count of x with cond(x), generator laziness ignored, VC generator, z3/cvc5. The buffering state machine of join_heads_to_tails_ was not brought under a loop invariant (DESIGN 6/C09).",
    technique="contract-based deductive verification of the counters (call-site obligations) with a bounded exhaustive stand-in for group_notes", design_ref="6/C09")
+_ENG_NOTE = "Trusted: bisect's local-boundary contract, heapq.merge, A-FLOAT (floats are reals; the 1e-9 s accuracy clause is not decided), SM_inv for the state list in the look-up units, VC generator, z3/cvc5. _coalesce_warps and _retime_events (union of warps, merge order, establishing SM_inv) were not brought under loop invariants; they are exercised only by the bounded stand-in."
+CLAIMED["C11"] = dict(
+   category="other",
+   text="Deductive proof (all inputs) of the EventTag order (closed term), TaggedEvent.__lt__ = (beat, tag) lexicographic, TimingState.time_until = the statement's formula, TimingStateMachine.advance = the recurrence step, and time_at / bpm_at = extrapolation from the last state at or before (beat, tag). The identity 'recurrence built by _coalesce_warps/_retime_events == the statement's integral timeline', monotonicity, offset shift and redundant-BPM invariance are a bounded stand-in: the real engine against an exact-rational evaluation of the statement on all placements of up to 3 events on a beat grid, every quarter beat, every tag - labelled bounded, hence level 'other'.",
+   note=_ENG_NOTE, technique="contract-based deductive verification of the state-machine step and look-ups, with a bounded exhaustive stand-in for the timeline identity", design_ref="6/C11")
+CLAIMED["C12"] = dict(
+   category="other",
+   text="Deductive proof (all inputs) that beats_until is the statement's formula and that beat_at bisects a sequence ordered in the key it searches (the state times; the obligation fails for a (time, tag) search), choosing the first state at that time for the WARP tag and the last otherwise, then adding beats_until. Round trip on tick-aligned beats outside warps, paused beat inside pauses, monotonicity in time and independence from redundant earlier events are a bounded stand-in on the same grid as C11 - hence level 'other'.",
+   note=_ENG_NOTE, technique="contract-based deductive verification (call-site precondition of bisect, look-up postconditions) with a bounded exhaustive stand-in", design_ref="6/C12")
+CLAIMED["C13"] = dict(
+   category="other",
+   text="Deductive proof for every note stream (loop invariant) that time_notes yields exactly what the statement prescribes per note, with the engine abstracted by callee contracts, and that hittable() is False exactly when the state in force after everything on that beat lies inside a warp and no stop/delay ends on that beat. That this reading of the state list equals 'inside the union of warp segments and no stop or delay on that beat' is a bounded stand-in on every tick of every small configuration - hence level 'other'.",
+   note=_ENG_NOTE, technique="contract-based deductive verification (loop invariant, callee contracts, look-up postcondition) with a bounded exhaustive stand-in", design_ref="6/C13")
 NA_REASON = "not yet brought under contract in this session (work in progress; see DESIGN.md section 6 for the plan)"
 
 NA_TABLE = {}
